@@ -428,11 +428,14 @@ func runC20(w *core.WorkerCtx, idx int) *core.CaseResult {
 			h := hashOf[id]
 			mu.Unlock()
 			st := p.exp.Get(h)
-			o := pollObs{at: time.Now(), nonNil: st != nil}
+			o := pollObs{nonNil: st != nil}
 			if st != nil && !w.Race {
 				// unsynchronised read, exactly as the coordinator does it; skipped in the -race pass
 				o.health, o.series, o.total = string(st.Health), st.Series, st.TotalSeries
 			}
+			// stamped AFTER the values were read: whatever was seen had happened by then (stamping before the
+			// read lets a probe finish in between and look like "healthy before any success" on a loaded machine)
+			o.at = time.Now()
 			polls[id] = append(polls[id], o)
 		}
 		time.Sleep(40 * time.Millisecond)
